@@ -218,7 +218,7 @@ prop("C03", level="exploration",
                  "dedup-by-key) to a real responder; the concatenated metadata must equal the responder's own traversal (link, present|missing) list, "
                  "every block must travel with its metadata entry exactly when the rule requires it, no other block may appear, and the final status must "
                  "match. Sequential requests must be served in full again; overlapping requests (request 1 held at a store gate) must omit exactly what "
-                 "request 1 already traversed with a block in the same scope."),
+                 "request 1 already traversed with a block in the same scope. Stage aftercancel: request 1 is paused by an outgoing-block hook or held inside a store read, cancelled by its requestor in that state, and once the responder no longer lists it a second request of the same scope (fresh id, or the same id when request 1 had produced no output) must be served in full."),
      level_note="Don't-care: a re-occurrence (index > skip) of a block whose first occurrence fell inside the skipped prefix may be sent or not. For the held request of an overlapping pair only 'no forbidden block' is checked for its tail.",
      rule=("One evaluation = one generated (DAG, responder store, selector, extension combination, mode in {single, sequential, overlap}) scenario. "
            "Non-trivial = executed and every received response message compared; distinct by (root, selector, store, mode, extensions)."),
